@@ -121,6 +121,51 @@ CLAIMED = {
                 'transparent.',
         'technique': SA + 'exactly-once path counting on wrapper CFGs, argument/result forwarding dataflow, attribute-path effect sets, dominance of the instrumented test',
     },
+    'C06': {
+        'level': 'Decides the registry and delivery discipline for all subscribe/publish sequences, including distinct queues with equal contents: '
+                 'membership by identity only (operator census), at most one registry modification per subscribe and none when already present, '
+                 'kind -> registry -> thread -> fabric-queue wiring by dataflow, delivery loop over exactly registry[signal of the item], one put per '
+                 'kind per publication, and no rebinding of objects the threads hold.',
+        'note': 'Not decided: exactly-once across delivery-thread interleavings (a history property). Trusted: list iteration, atomic deque adds.',
+        'technique': SA + 'identity/content operator census, per-path modification counts, dataflow wiring through start()/subscribe(), loop-shape rules, alias rule',
+    },
+    'C09': {
+        'level': 'Decides which end of a subscriber queue each delivery thread adds to, with "front" read from the consumer (the pop in next_rtc) and the '
+                 'kind of each thread resolved by dataflow. The lifo thread appending at the back is an open finding (a test pins it).',
+        'note': 'Known finding F-C09 is reported as KNOWN-FINDING; any other end mismatch is a violation.',
+        'technique': SA + 'end-label agreement between producer threads and the consumer, kind resolution by dataflow',
+    },
+    'C10': {
+        'level': 'Decides the count ("exactly n times, forever for 0") by an induction established from the CFG of the timer thread: one post and one '
+                 'increment per passing iteration, counter from the literal 0, self-clear under total != 0 and counter >= total after the increment, '
+                 'guard re-reads the flag; plus per-iteration order sleep < re-test < post and the def-use wiring of period/times/deferred/tag. '
+                 'The firing instants are NOT decided.',
+        'note': 'Not decided: wall-clock instants, sleep overshoot, drift. Assumes nobody else clears the run flag (cancellation is C11/C12).',
+        'technique': SA + 'per-iteration path counting, comparison-operator table of the termination test, def-use wiring from API parameters to thread reads',
+    },
+    'C11': {
+        'level': 'Decides that cancellation matches by equality for every way of obtaining the id/name, that the rotate/pop scan inspects every tracked '
+                 'source exactly once (one of pop()/rotate(1) per iteration, len iterations, inspected element [-1]), and that only matched sources '
+                 'are stopped. The test-then-post window of the timer thread is an open finding.',
+        'note': 'Known finding F-C11b (one stray post after cancel returns) is reported as KNOWN-FINDING.',
+        'technique': SA + 'identity-vs-equality operator census, exactly-one-of path rule per loop iteration, guard analysis, lockset look at the timer',
+    },
+    'C12': {
+        'level': 'Decides the orderings that make stop() terminate and complete for every interleaving: flag cleared before the wake-up, wake-up before '
+                 'the join, only RuntimeError skips the join, every path reaches cancel-all over a snapshot, the consumer re-reads the flag and does not '
+                 'dispatch the stop item; and by effect analysis that stop() touches only this object. "No post after stop() returns" is limited by the '
+                 'open finding F-C11b.',
+        'note': 'Trusted: Thread.join semantics; the wake-up token protocol (C04).',
+        'technique': SA + 'dominance / post-dominance on the CFG of stop(), snapshot-vs-live alias rule, attribute-path write set of stop()',
+    },
+    'C13': {
+        'level': 'Decides "at most one delivery thread per kind for every sequence of start/stop/clear calls" through its per-path conditions: the helper '
+                 'returns the handle on every path, a thread is created only when the stored handle is None or dead and is stored back, stop clears '
+                 'the shared event before waking and wakes before joining with the same (handle, queue) pairs, is_alive is the conjunction (evaluated '
+                 'on all 9 handle states), fabric and active objects share one run event, and nothing rebinds what the threads hold.',
+        'note': 'Trusted: Thread.is_alive/join semantics. Delivery after restart relies on C06.',
+        'technique': SA + 'return-path completeness, dominance, finite evaluation of is_alive over handle states, singleton/alias census',
+    },
 }
 
 NOT_APPLICABLE = {}
